@@ -249,6 +249,46 @@ def check_walker_paths(ctx, ws):
                        if live else
                        'the descent into .%s is guarded so that it never '
                        'runs when children are present' % a)
+        # a "nothing found" verdict must have looked at every kind of
+        # child: for each child-holding class either its isinstance test or
+        # a read of its child attribute is on the path
+        holders = {q: cc.child_attr for q, cc in classes.items()
+                   if cc.sem in ('and', 'or', 'not', 'ident')
+                   and cc.child_attr}
+        blind = None
+        for p in t.paths:
+            oe = t.expand(p.outcome.expr) if p.outcome.kind == 'return' \
+                and p.outcome.expr is not None else None
+            if not (oe is not None and is_const(oe) and not oe.value):
+                continue
+            isalias_true = any(
+                c.kind == 'test' and c.pol and isinstance(c.expr, ast.Call)
+                and U(c.expr.func) == 'isinstance' and prog.resolve(
+                    w.module, c.expr.args[1]) == alias for c in p.conds)
+            if isalias_true:
+                continue            # a leaf reference has no children
+            for q, a in holders.items():
+                seen_attr = any(reads_attr(c.expr, a) for c in p.conds
+                                if c.kind in ('test', 'loop'))
+                seen_cls = any(
+                    c.kind == 'test' and isinstance(c.expr, ast.Call)
+                    and U(c.expr.func) == 'isinstance' and U(
+                        c.expr.args[0]) == p_check and prog.resolve(
+                            w.module, c.expr.args[1]) in (
+                                q, q.replace(CHECKS, POLICY))
+                    for c in p.conds)
+                if not (seen_attr or seen_cls) and blind is None:
+                    blind = (p, q.rsplit('.', 1)[-1], a)
+        ctx.ob('C13.EXHAUSTIVE', blind is None,
+               '%s:%d' % (F, blind[0].outcome.line) if blind
+               else ctx.where(w.module, w.node), w.qual,
+               'clean verdicts examine every kind of child',
+               'a check is declared clean only after its children (of every '
+               'kind) were looked at' if blind is None else
+               'the walker can return "nothing found" without looking at '
+               '%s.%s (path: %s): references below such a node are pruned '
+               'from validation' % (blind[1], blind[2],
+                                    blind[0].cond_text()[-200:]))
         ctx.count(len(t.paths))
         ctx.ob('C13.FOLD', bad_fold is None and n_hit > 0,
                '%s:%d' % (F, bad_fold[0].outcome.line) if bad_fold
